@@ -92,6 +92,7 @@ type ContractSet struct {
 	Impls    map[string]string       // interface type string -> concrete type string
 	TypeTags []TypeTagDecl
 	Files    []string
+	Harmless []string // external functions assumed to neither panic nor touch state (`harmless <name>` in a spec)
 }
 
 // TypeTagDecl: `typetag isFoo asFoo *pkg/path.Foo` declares a predicate on interface values (dynamic type is *Foo)
@@ -124,7 +125,7 @@ type GhostDecl struct {
 var clauseKw = map[string]bool{
 	"func": true, "extern": true, "requires": true, "ensures": true, "nopanic": true, "modifies": true,
 	"pure": true, "inline": true, "loop": true, "let": true, "assume": true, "trusted": true, "prelude": true,
-	"lemma": true, "panics_unless": true, "props": true, "ghost": true, "end": true, "modifies_ptr": true, "kvstore": true, "hint": true, "nopanic_if": true, "vars": true, "call": true, "show": true, "use": true, "abstracts": true, "global": true, "implements": true, "typetag": true, "at_next": true,
+	"lemma": true, "panics_unless": true, "props": true, "ghost": true, "end": true, "modifies_ptr": true, "kvstore": true, "hint": true, "nopanic_if": true, "vars": true, "call": true, "show": true, "use": true, "abstracts": true, "global": true, "implements": true, "typetag": true, "at_next": true, "harmless": true,
 }
 
 var labelRe = regexp.MustCompile(`^@([A-Za-z0-9_\-]+)\s*`)
@@ -227,6 +228,14 @@ func (cs *ContractSet) LoadFile(path, pkg string) error {
 				}
 				cs.ByKey[c.Key] = c
 			}
+		case "harmless":
+			// harmless <function name or *suffix>: an external function without contract that may be called from a
+			// function under nopanic (presentation code: events, logging, formatting)
+			if len(fields) != 2 {
+				return fmt.Errorf("%s: harmless <function>", where)
+			}
+			cs.Harmless = append(cs.Harmless, fields[1])
+			cur, curLemma = nil, nil
 		case "ghost":
 			// ghost name Sort
 			if len(fields) < 3 {
@@ -562,6 +571,22 @@ func (cs *ContractSet) Lookup(fnString string) *Contract {
 		}
 	}
 	return nil
+}
+
+// IsHarmless: listed by a `harmless` directive (full name, or suffix after a leading '*').
+func (cs *ContractSet) IsHarmless(fnString string) bool {
+	for _, h := range cs.Harmless {
+		if h == fnString || (strings.HasPrefix(h, "*") && strings.HasSuffix(fnString, h[1:])) {
+			return true
+		}
+		if strings.HasSuffix(h, ".*") { // a whole package: functions and methods of its types
+			pk := strings.TrimSuffix(h, "*")
+			if strings.HasPrefix(fnString, pk) || strings.HasPrefix(fnString, "("+pk) || strings.HasPrefix(fnString, "(*"+pk) {
+				return true
+			}
+		}
+	}
+	return false
 }
 
 func (c *Contract) HasProp(p string) bool {
